@@ -1,12 +1,133 @@
-(* C11 property theorems: statements only, each closed by `exact`. *)
+(* C11 property theorems: statements only, each closed by `exact`.
+   Definitions used in the statements: Model.v (call_ok, scrape, write_fit, direct_row, best, best_child ...),
+   Proofs2.v (CallOk), Proofs3.v (wf, loadable, holds, ids_of, cell_ids, cells_disjoint,
+   parent_files_consistent), Proofs4.v (spec_ok). *)
 From Coq Require Import List String Bool ZArith.
-From PAFC11 Require Import Lib Gen Model Proofs.
+From PAFC11 Require Import Lib Gen Model Proofs Proofs2 Proofs3 Proofs4.
 Import ListNotations.
+Open Scope string_scope.
 Open Scope list_scope.
 
-(* the stored best-fit sample is a sample of the fit with maximal likelihood *)
+(* ---- the stored best fit is a sample of maximal likelihood ---- *)
 Theorem C11_best_sample_is_max : forall (l : list sample) (b : sample),
   best l = Some b -> In b l /\ forall s, In s l -> (s_ll s <= s_ll b)%Z.
 Proof. exact best_is_max. Qed.
 
-Print Assumptions C11_best_sample_is_max.
+(* ---- every search's persisted settings can be read back ---- *)
+(* the executable check is exactly "no __init__ on the chain raises TypeError" *)
+Theorem C11_settings_call_spec : forall (ch : list sig) (keys : list string),
+  call_ok ch keys = true <-> CallOk ch keys.
+Proof. exact call_ok_spec. Qed.
+
+(* whatever subset of the possible keys was persisted (hasattr filtering), reading back succeeds
+   as soon as it succeeds for the full key set *)
+Theorem C11_settings_monotone : forall (ch : list sig) (a b : list string),
+  incl a b -> call_ok ch b = true -> call_ok ch a = true.
+Proof. exact call_ok_mono. Qed.
+
+(* PARTIAL (guard: class is not Drawer): every concrete search class of the current source reads back *)
+Theorem C11_all_searches_partial : forall c : search_class,
+  In c search_classes -> sc_name c <> "Drawer" ->
+  forall keys, incl keys (serialised_keys c) -> reload_ok c keys = true.
+Proof. exact all_searches_partial. Qed.
+
+(* REFUTED for Drawer at the pinned commit: keys it persists cannot be fed back to its constructor *)
+Theorem C11_all_searches_refuted :
+  exists keys, incl keys (serialised_keys drawer_pinned) /\ reload_ok drawer_pinned keys = false.
+Proof. exact drawer_refuted. Qed.
+
+(* with the proposed repair (kwargs.pop("number_of_cores", None)) Drawer reads back *)
+Theorem C11_drawer_repaired : forall keys,
+  incl keys (serialised_keys drawer_repaired) -> reload_ok drawer_repaired keys = true.
+Proof. exact drawer_repaired_ok. Qed.
+
+(* consequence of an unreadable search in the faithful model: the whole directory is not loaded *)
+Theorem C11_unreadable_search_aborts_load : forall (classes : list search_class) (uf co : bool) (dir : list folder),
+  (exists f, In f (outputs co dir) /\ folder_reload_ok classes f = false) ->
+  (forall f, In f (outputs co dir) -> f_load_error f = None) ->
+  NoDup (flat_map ids_of (outputs co dir)) ->
+  scrape classes uf co dir [] = Raised "TypeError".
+Proof. exact scrape_unreadable. Qed.
+
+(* ---- loading a directory loses nothing (distinct identifiers, loadable outputs) ---- *)
+Theorem C11_lossless : forall (classes : list search_class) (uf co : bool) (dir : list folder),
+  wf classes uf co dir ->
+  exists db,
+    scrape classes uf co dir [] = Loaded db /\
+    NoDup (map r_id db) /\
+    (forall f, In f (outputs co dir) -> exists r, In r db /\ holds r f) /\
+    (forall r, In r db -> r_grid r = false -> r_name r <> None ->
+               exists f, In f (outputs co dir) /\ holds r f).
+Proof. exact lossless. Qed.
+
+Theorem C11_completed_only : forall (classes : list search_class) (uf : bool) (dir : list folder),
+  wf classes uf true dir ->
+  exists db, scrape classes uf true dir [] = Loaded db /\
+    forall r, In r db -> r_grid r = false -> r_name r <> None -> r_complete r = Some true.
+Proof. exact completed_only_rows. Qed.
+
+Theorem C11_analyses_children : forall (classes : list search_class) (uf co : bool) (dir : list folder) (f : folder),
+  wf classes uf co dir -> In f (outputs co dir) ->
+  exists db kids, scrape classes uf co dir [] = Loaded db /\
+    (forall k, In k kids -> In k db /\ r_parent k = Some (f_reload_id f) /\ r_name k = None) /\
+    map r_jsons kids = f_analyses f.
+Proof. exact analyses_children. Qed.
+
+(* ---- grid searches: one parent linked to exactly its cells ---- *)
+(* PARTIAL, code as pinned (id = text of .is_grid_search): the guard `wf ... false` demands distinct marker texts *)
+Theorem C11_grid_partial : forall (classes : list search_class) (co : bool) (dir : list folder),
+  wf classes false co dir -> cells_disjoint false co dir -> parent_files_consistent false co dir ->
+  exists db, scrape classes false co dir [] = Loaded db /\
+    forall g, In g (grids co dir) ->
+      (exists r, In r db /\ r_id r = gs_id false g /\ r_grid r = true /\ r_parent r = None /\
+                 r_complete r = Some (f_completed g) /\ r_tag r = f_marker g /\ r_jsons r = f_jsons g) /\
+      (forall r', In r' db -> (r_parent r' = Some (gs_id false g) <-> In (r_id r') (cell_ids co dir g))).
+Proof. exact (fun classes => grid_links classes false). Qed.
+
+(* REFUTED, code as pinned: loadable outputs, distinct fit ids, distinct grid-search folders -- and the load raises *)
+Theorem C11_grid_refuted :
+  exists dir,
+    (forall f, In f (outputs false dir) -> loadable [] f) /\
+    NoDup (flat_map ids_of (outputs false dir) ++ map folder_name (grids false dir)) /\
+    scrape [] false false dir [] = Raised "IntegrityError".
+Proof. exact grid_refuted. Qed.
+
+(* FULL for the repaired code (id = folder name): distinct folders suffice *)
+Theorem C11_grid_fixed : forall (classes : list search_class) (co : bool) (dir : list folder),
+  wf classes true co dir -> cells_disjoint true co dir -> parent_files_consistent true co dir ->
+  exists db, scrape classes true co dir [] = Loaded db /\
+    forall g, In g (grids co dir) ->
+      (exists r, In r db /\ r_id r = gs_id true g /\ r_grid r = true /\ r_parent r = None /\
+                 r_complete r = Some (f_completed g) /\ r_tag r = f_marker g /\ r_jsons r = f_jsons g) /\
+      (forall r', In r' db -> (r_parent r' = Some (gs_id true g) <-> In (r_id r') (cell_ids co dir g))).
+Proof. exact (fun classes => grid_links classes true). Qed.
+
+Theorem C11_grid_id_is_folder_when_fixed : forall g : folder, gs_id true g = folder_name g.
+Proof. exact gs_id_true. Qed.
+
+(* the best fit of a grid search is a linked cell of maximal likelihood *)
+Theorem C11_grid_best : forall (db : list row) (gid : string) (b : row),
+  best_child db gid = Some b ->
+  In b (children db gid) /\
+  exists w, r_maxll b = Some w /\
+            forall c, In c (children db gid) -> exists u, r_maxll c = Some u /\ (u <= w)%Z.
+Proof. exact best_child_is_max. Qed.
+
+(* ---- the directory route agrees with the session route ---- *)
+Theorem C11_routes_agree : forall (classes : list search_class) (uf : bool) (specs : list fit_spec),
+  (forall s, In s specs -> spec_ok classes s) ->
+  NoDup (flat_map ids_of (map write_fit specs)) ->
+  exists db,
+    scrape classes uf false (map write_fit specs) [] = Loaded db /\
+    NoDup (map r_id db) /\
+    (forall s, In s specs ->
+       exists r, In r db /\ r_id r = fs_id s /\ folder_name (write_fit s) = fs_id s /\
+                 same_fit r (direct_row s) = true) /\
+    (forall r, In r db -> r_name r <> None ->
+       exists s, In s specs /\ same_fit r (direct_row s) = true).
+Proof. exact routes_agree. Qed.
+
+Print Assumptions C11_all_searches_partial.
+Print Assumptions C11_lossless.
+Print Assumptions C11_grid_fixed.
+Print Assumptions C11_routes_agree.
